@@ -459,7 +459,9 @@ theorem majorityJudgment_perm (tb : TieBreaking) (cfg : Cfg) {p₁ p₂ : SProfi
     ExceptEquiv SlotsEquiv (majorityJudgment tb cfg p₁ n) (majorityJudgment tb cfg p₂ n) :=
   majorityJudgment_same tb cfg (sameBallots_of_perm h) n
 
-/-- non-vacuity: a boundary tie broken by the default rule, the ballots in two orders -/
+/-- non-vacuity: a boundary tie broken by the default rule, the ballots in two orders (and one ballot re-listed) -/
+example : SameBallots [([(1, (1 : Rat)), (2, 2), (3, 1)], (6 : Int)), ([(3, 2)], 3)]
+    [([(3, 2)], 3), ([(3, 1), (1, 1), (2, 2)], 6)] := by decide +kernel
 example : majorityJudgment .default { fn := .medianLow, unscored := .none, minCount := 0, trunc := .off, bottom := 0 }
     [([(1, 1), (2, 2), (3, 1)], 6), ([(3, 2)], 3)] 2 = .ok [Slot.cand 2, Slot.cand 3] := by decide +kernel
 example : majorityJudgment .default { fn := .medianLow, unscored := .none, minCount := 0, trunc := .off, bottom := 0 }
